@@ -23,3 +23,4 @@ pub fn opt_str_is(o: Option<&str>, s: &str) -> (r: bool) ensures r == (o is Some
 pub fn opt_as_str(o: &Option<String>) -> (r: Option<&str>) ensures (o is Some) == (r is Some), o is Some ==> r->Some_0@ == o->Some_0@ { unimplemented!() }
 pub assume_specification<T, E> [core::result::Result::<T, E>::unwrap_or] (r: core::result::Result<T, E>, default: T) -> (o: T)
     ensures o == (match r { Ok(v) => v, Err(_) => default });
+pub assume_specification<P: std::str::pattern::Pattern> [str::replace] (_0: &str, _1: P, _2: &str) -> String;
